@@ -138,7 +138,7 @@ def verify_android_safetynet(
     # by following the steps in the SafetyNet online documentation.
     x5c = [base64url_to_bytes(cert) for cert in header.x5c]
 
-    if not payload.basic_integrity:
+    if payload.basic_integrity is not True:
         raise InvalidRegistrationResponse("Could not verify device integrity (SafetyNet)")
 
     if verify_timestamp_ms:
